@@ -38,6 +38,9 @@ pub struct IoInner {
     /// when set, the transport answers inside poll_write (reactive server, used by the sync lane)
     pub reactor: Option<Reactor>,
     pub max_read: usize,
+    /// bytes presented to poll_write that the transport has not accepted (a stalled or failed
+    /// write): what the driver has taken off its request queue but not yet put on the wire
+    pub offered: Vec<u8>,
 }
 
 impl IoInner {
@@ -59,6 +62,7 @@ impl IoInner {
             read_total: 0,
             reactor: None,
             max_read: usize::MAX,
+            offered: Vec::new(),
         }
     }
     pub fn wake_reader(&mut self) {
@@ -159,6 +163,7 @@ impl AsyncWrite for MemIo {
             g.writes_after_shutdown += 1;
             return Poll::Ready(Err(io::Error::new(io::ErrorKind::BrokenPipe, "write after shutdown")));
         }
+        g.offered.clear();
         match g.wmode {
             WMode::Accept => {
                 g.out.extend_from_slice(buf);
@@ -182,11 +187,13 @@ impl AsyncWrite for MemIo {
                 let k = n.min(buf.len());
                 g.out.extend_from_slice(&buf[..k]);
                 g.wmode = WMode::AcceptThenErr(n - k);
+                g.offered = buf[k..].to_vec();
                 Poll::Ready(Ok(k))
             }
             WMode::PendingOnce => {
                 g.wmode = WMode::Accept;
                 g.write_waker = Some(cx.waker().clone());
+                g.offered = buf.to_vec();
                 Poll::Pending
             }
             WMode::Err => {
